@@ -671,6 +671,29 @@ def _late_edits(h, seed):
     rng = random.Random(seed)
     B = tys.Bool
     nodes = list(h)
+    if isinstance(h[h.root].op, ops.Module) and rng.random() < 0.4:
+        # two functions added around a deletion, so that the LATER sibling takes the smaller (reused) index: children are
+        # exported in the order of the hierarchy, not of their indices (seeded change C12-15) …
+        from hugr import val
+
+        d1 = h.add_node(ops.Const(val.TRUE), h.root)
+        f1 = Function.new_nested(ops.FuncDefn(f"late_a{rng.randrange(1000)}", [B, B], []), h, h.root)
+        a, b = f1.inputs()
+        n1 = f1.add_op(ops.Custom("late2", signature=tys.FunctionType([B], [B, B]), extension="verif"), a)
+        n2 = f1.add_op(ops.Noop(), b)
+        f1.set_outputs(n1[0], n2[0])
+        h.delete_node(d1)
+        f2 = Function.new_nested(ops.FuncDefn(f"late_b{rng.randrange(1000)}", [B], []), h, h.root)
+        f2.set_outputs(f2.inputs()[0])
+        # … and, after one more export, a wire is MOVED (one link deleted, one added: the number of links stays the same):
+        # the Noop now reads the second output of the other operation (seeded change C12-16: link names memoised under
+        # the number of links)
+        try:
+            h.to_model()
+        except Exception:  # noqa: BLE001
+            pass
+        h.delete_link(b, n2.inp(0))
+        h.add_link(n1.out(1), n2.inp(0))
     for _ in range(rng.randint(1, 3)):
         x = rng.random()
         if x < 0.35:
